@@ -59,3 +59,17 @@ package binary
 //@   ensures one_statement_per_field: typeof(t) == *dsl.RecordDefinition && t.(*dsl.RecordDefinition) != nil ==> emitted("%s(stream, value.%s);\n") == len(t.(*dsl.RecordDefinition).Fields)
 //@   ensures fields_in_declaration_order: typeof(t) == *dsl.RecordDefinition && t.(*dsl.RecordDefinition) != nil ==> (forall k in 0..len(t.(*dsl.RecordDefinition).Fields) :: emittedArg("%s(stream, value.%s);\n", k, 0, string) == typeRwFunction(t.(*dsl.RecordDefinition).Fields[k].Type, write) && emittedArg("%s(stream, value.%s);\n", k, 1, string) == common.FieldIdentifierName(t.(*dsl.RecordDefinition).Fields[k].Name))
 //@   ensures alias_delegates_to_target: typeof(t) == *dsl.NamedType && t.(*dsl.NamedType) != nil ==> emitted("%s(stream, value);\n") == 1 && emittedArg("%s(stream, value);\n", 0, 0, string) == typeRwFunction(t.(*dsl.NamedType).Type, write)
+
+// ---- C01: the memcpy fast path is only enabled for records that can be copied byte for byte: EVERY field is itself
+// trivially serializable, the struct has no padding at all (its size is the sum of ALL field sizes) and the fields
+// are laid out in declaration order (each offset is larger than the previous one). -------------------------------
+//@ func writeIsTriviallySerializableSpecialization@emits:"IsTriviallySerializable<decltype(__T__::%s)>::value"
+//@   property C01
+//@   ensures emitted("IsTriviallySerializable<decltype(__T__::%s)>::value") == 1 && emittedArg("IsTriviallySerializable<decltype(__T__::%s)>::value", 0, 0, string) == common.FieldIdentifierName(f.Name)
+//@ func writeIsTriviallySerializableSpecialization@emits:"sizeof(__T__::%s)"
+//@   property C01
+//@   ensures emitted("sizeof(__T__::%s)") == 1 && emittedArg("sizeof(__T__::%s)", 0, 0, string) == common.FieldIdentifierName(f.Name)
+//@ func writeIsTriviallySerializableSpecialization
+//@   property C01
+//@   ensures every_field_must_be_trivial: typeof(t) == *dsl.RecordDefinition && t.(*dsl.RecordDefinition) != nil ==> emitted("IsTriviallySerializable<decltype(__T__::%s)>::value") == old(len(t.(*dsl.RecordDefinition).Fields)) && (forall k in 0..old(len(t.(*dsl.RecordDefinition).Fields)) :: emittedArg("IsTriviallySerializable<decltype(__T__::%s)>::value", k, 0, string) == common.FieldIdentifierName(old(t.(*dsl.RecordDefinition).Fields[k].Name)))
+//@   ensures size_is_sum_of_all_fields: typeof(t) == *dsl.RecordDefinition && t.(*dsl.RecordDefinition) != nil && old(len(t.(*dsl.RecordDefinition).Fields)) > 0 ==> emitted("(sizeof(__T__) == (") == 1 && emitted("sizeof(__T__::%s)") == old(len(t.(*dsl.RecordDefinition).Fields)) && (forall k in 0..old(len(t.(*dsl.RecordDefinition).Fields)) :: emittedArg("sizeof(__T__::%s)", k, 0, string) == common.FieldIdentifierName(old(t.(*dsl.RecordDefinition).Fields[k].Name)))
